@@ -26,6 +26,10 @@
 //!
 //! Thorough tier: additionally builds the real harper-ls binary and runs it under strace in --stdio mode and in
 //! TCP mode (the listener must be one AF_INET socket bound to 127.0.0.1:4000; nothing else).
+//!
+//! Phase 4 (both tiers): the real harper-cli binary, every subcommand, under the EMPTY monitor configuration (it may
+//! write nothing at all); the two dictionary files `lint` reads vs the extracted C10Cli.cli_lint_reads (cases `K`);
+//! real harper-ls mode `stdio-userdir` (userDictPath `<dir>/..`: known finding FC10b, class userdict-names-directory).
 #[path = "../lsclient.rs"]
 mod lsclient;
 use hv::common::*;
@@ -1932,8 +1936,10 @@ fn real_cli(rep: &mut Report, args: &Args, cli: &str) {
     rep.monitor("real_cli_lint_dictionary_reads_compared_with_model", n_k);
     rep.monitor("real_cli_documents_seen_opened", n_doc_reads);
     rep.monitor("real_cli_file_dictionaries_found_where_the_model_says", n_dict_found);
-    if n_dict_found < 3 {
-        panic!("real harper-cli: only {n_dict_found} lint runs found their pre-written file dictionary — vacuous");
+    // (no panic when few are found: a harper-cli that looks elsewhere must surface as `K` disagreements with a concrete
+    // command line, not as an abnormal exit; the count is in the monitors)
+    if n_k == 0 {
+        panic!("real harper-cli: no lint run was compared with the model — vacuous");
     }
     let mut files = vec![];
     walk(Path::new(&scratch), &mut files);
